@@ -10,6 +10,8 @@ package c18
 
 import (
 	"fmt"
+	"sort"
+	"strconv"
 	"strings"
 	"unicode/utf8"
 
@@ -65,15 +67,48 @@ func min(a, b int) int {
 	return b
 }
 
+// colMode is the library's column convention, found by probing it once per process: the
+// property does not say whether a column counts bytes or code points, but one request text
+// cannot be located in both ways. 0 = could not tell (either is accepted).
+var colMode int
+
+const (
+	colBytes = 1
+	colRunes = 2
+)
+
+func probeColumns() {
+	colMode = 0
+	_, err := execx.Parse("\"\u00e9\" }") // the brace sits at byte column 6, code-point column 5
+	if _, col, ok := libSyntaxLocation(err); ok {
+		switch col {
+		case 6:
+			colMode = colBytes
+		case 5:
+			colMode = colRunes
+		}
+	}
+}
+
+func colOK(cb, cr, col int) bool {
+	switch colMode {
+	case colBytes:
+		return cb == col
+	case colRunes:
+		return cr == col
+	}
+	return cb == col || cr == col
+}
+
 // within reports whether (line, col) addresses some offset in [from, to) of text, the
-// column being read either as bytes or as code points.
+// column being read in the library's own convention.
 func within(text []byte, from, to, line, col int) bool {
 	if to <= from {
 		to = from + 1
 	}
 	for off := from; off < to && off <= len(text); off++ {
 		l, cb, cr := lineCol(text, off)
-		if l == line && (cb == col || cr == col) {
+		if l == line && colOK(cb, cr, col) {
 			return true
 		}
 	}
@@ -221,11 +256,14 @@ var fieldQueries = []fieldQuery{
 	{toks: strings.Fields("{ l { x z : y } ll { x } n }"), paths: map[string]int{"l": 1, "l/0/x": 3, "l/1/x": 3, "l/0/z": 4, "l/1/z": 4, "ll": 8, "ll/0/0/x": 10, "ll/1/1/x": 10, "n": 12}},
 	{toks: strings.Fields("query Q { i { x ... on O { y w : n } } ln { n } }"), paths: map[string]int{"i": 3, "i/x": 5, "i/y": 10, "i/w": 11, "ln": 16, "ln/0/n": 18, "ln/1/n": 18}},
 	{toks: strings.Fields("{ o { ... F } on { x } } fragment F on O { v : e o { y } }"), paths: map[string]int{"o": 1, "o/v": 16, "o/o": 19, "o/o/y": 21, "on": 6, "on/x": 8}},
+	{toks: strings.Fields("{ o { o { x y o { x k : y l { x y } } } } }"), paths: map[string]int{"o/o/x": 5, "o/o/y": 6, "o/o/o/x": 9, "o/o/o/k": 10, "o/o/o/l/0/x": 15, "o/o/o/l/0/y": 16, "o/o/o/l/1/x": 15}},
 }
 
 func run(c *core.Ctx) {
-	c.R.Rule = "case = (erroneous request, layout): (a) every rejected text of the token enumeration with every assignment of one (quick) / two (thorough) non-space gaps among 9 gap kinds (LF, CR, CRLF, comma, comment with a multi-byte character, tab, double space, blank line); (c) every single failing field of 4 queries (aliases, lists, lists of lists, non-null propagation, fragments) under every single-gap layout; non-trivial = rejected texts / failing fields; distinct by rendered text"
-	c.R.Assumptions = []string{"M-syntax determines the first token at which the text stops being a prefix of a document", "line/column recomputed independently: LF, CR, CRLF end a line; the column may be counted in bytes or in code points (the property does not fix the unit)", "Go toolchain"}
+	probeColumns()
+	c.R.Bounds["column_convention"] = []string{"undetermined", "bytes", "code points"}[colMode]
+	c.R.Rule = "case = (erroneous request, layout): (a) every rejected text of the token enumeration with every assignment of one (quick) / two (thorough) non-space gaps among 9 gap kinds (LF, CR, CRLF, comma, comment with a multi-byte character, tab, double space, blank line); (c) every single failing field of 5 queries (aliases, lists, lists of lists, non-null propagation, fragments, paths up to 6 segments) under every single-gap layout; (d) every pair of failing fields of these queries; non-trivial = rejected texts / failing fields; distinct by rendered text"
+	c.R.Assumptions = []string{"M-syntax determines the first token at which the text stops being a prefix of a document", "line/column recomputed independently: LF, CR, CRLF end a line; the column unit (bytes or code points) is not fixed by the property: it is probed once on `\"\u00e9\" }` and then required everywhere", "Go toolchain"}
 	qi := 0
 	if !c.Quick() {
 		qi = 1
@@ -352,6 +390,84 @@ func run(c *core.Ctx) {
 			}
 		}
 	}
+	// (d) two failing fields in one request: each failure keeps its own path
+	for qi, fq := range fieldQueries {
+		var paths []string
+		for p := range fq.paths {
+			paths = append(paths, p)
+		}
+		sort.Strings(paths)
+		text := strings.Join(fq.toks, " ")
+		for i, p1 := range paths {
+			for _, p2 := range paths[i+1:] {
+				if !c.Mine(idx) {
+					idx++
+					continue
+				}
+				idx++
+				if strings.HasPrefix(p2, p1+"/") || strings.HasPrefix(p1, p2+"/") {
+					continue
+				}
+				h.fail = map[string]bool{p1: true, p2: true}
+				r := graphql.Do(graphql.Params{Schema: b.Schema, RequestString: text})
+				c.R.Evaluations++
+				c.R.States++
+				c.R.Nontriv(report.H(text + p1 + p2))
+				if bad := judgePair(r, p1, p2); bad != "" {
+					c.Mismatch("", "field pair "+sigOf(bad), fmt.Sprintf("%q with the resolvers at %s and %s failing: %s", text, p1, p2, bad), map[string]interface{}{"fq": qi, "path": p1, "path2": p2, "text": text})
+				}
+			}
+		}
+	}
+}
+
+// judgePair: two fields fail in one request; each failure is reported under its own path
+// unless the other failure nulled a prefix of it.
+func judgePair(r *graphql.Result, p1, p2 string) string {
+	nulledAbove := func(path string) bool {
+		var cur interface{} = r.Data
+		segs := strings.Split(path, "/")
+		for _, seg := range segs[:len(segs)-1] {
+			switch v := cur.(type) {
+			case map[string]interface{}:
+				if v == nil {
+					return true
+				}
+				cur = v[seg]
+			case []interface{}:
+				i, err := strconv.Atoi(seg)
+				if err != nil || i >= len(v) {
+					return true
+				}
+				cur = v[i]
+			default:
+				return true
+			}
+		}
+		return cur == nil
+	}
+	seen := map[string]int{}
+	for _, e := range r.Errors {
+		seen[model.PathString(e.Path)]++
+	}
+	for _, p := range []string{p1, p2} {
+		if seen[p] == 0 && !nulledAbove(p) {
+			var ps []string
+			for _, e := range r.Errors {
+				ps = append(ps, model.PathString(e.Path))
+			}
+			return fmt.Sprintf("the failure at %s is not reported under its path (error paths: %v)", p, ps)
+		}
+	}
+	for p, n := range seen {
+		if p != p1 && p != p2 {
+			return fmt.Sprintf("an error carries the path %s where nothing failed", p)
+		}
+		if n > 1 {
+			return fmt.Sprintf("%d errors carry the path %s", n, p)
+		}
+	}
+	return ""
 }
 
 func judgeField(text []byte, r *graphql.Result, path string, off int) string {
@@ -373,7 +489,7 @@ func judgeField(text []byte, r *graphql.Result, path string, off int) string {
 	}
 	l, cb, cr := lineCol(text, off)
 	loc := hit.Locations[0]
-	if loc.Line != l || (loc.Column != cb && loc.Column != cr) {
+	if loc.Line != l || !colOK(cb, cr, loc.Column) {
 		return fmt.Sprintf("the field error is located at %d:%d, the field node starts at %d:%d (byte %d)", loc.Line, loc.Column, l, cb, off)
 	}
 	// data is null at the path or at a prefix of it
@@ -418,9 +534,42 @@ func sigOf(s string) string {
 }
 
 func replay(c *core.Ctx, p map[string]interface{}) (bool, string) {
+	probeColumns()
 	text, _ := p["text"].(string)
-	if _, ok := p["fq"]; ok {
-		return false, "field-error case: re-run the check (deterministic)"
+	if fqv, ok := p["fq"].(float64); ok {
+		fq := fieldQueries[int(fqv)]
+		g := gen.Kitchen()
+		b, err := bridge.Build(g, bridge.Options{})
+		if err != nil {
+			return false, err.Error()
+		}
+		h := &failHooks{g: g}
+		b.H = h
+		path, _ := p["path"].(string)
+		if p2, ok := p["path2"].(string); ok {
+			h.fail = map[string]bool{path: true, p2: true}
+			r := graphql.Do(graphql.Params{Schema: b.Schema, RequestString: text})
+			if bad := judgePair(r, path, p2); bad != "" {
+				return false, fmt.Sprintf("%q with the resolvers at %s and %s failing: %s", text, path, p2, bad)
+			}
+			return true, "both failures are reported under their own paths"
+		}
+		// byte offset of the failing field's first token: tokens occur in order, gaps hold none of them
+		off, pos := 0, 0
+		for i := 0; i <= fq.paths[path]; i++ {
+			j := strings.Index(text[pos:], fq.toks[i])
+			if j < 0 {
+				return false, "replay: token not found in the text"
+			}
+			off = pos + j
+			pos = off + len(fq.toks[i])
+		}
+		h.fail = map[string]bool{path: true}
+		r := graphql.Do(graphql.Params{Schema: b.Schema, RequestString: text})
+		if bad := judgeField([]byte(text), r, path, off); bad != "" {
+			return false, fmt.Sprintf("%q with the resolver at %s failing: %s", text, path, bad)
+		}
+		return true, "the field error carries the field's path and location"
 	}
 	if bad, _, _ := judgeSyntax([]byte(text)); bad != "" {
 		return false, fmt.Sprintf("%q: %s", text, bad)
